@@ -63,4 +63,5 @@ bc0d713 C10
 4d9c9d1 C15 C01
 3a169e8 C19
 8026e10 C09
+ba336bb C19 C10
 LIST
